@@ -100,11 +100,6 @@ theorem svg_style_text_counterexample : ¬ svg_style_text_full := by
   revert this
   decide
 
-theorem wfCData_of_all (t : List Char) (h : t.all legalByte = true) : WfCDataText t := by
-  intro c hc
-  have := (List.all_eq_true.mp h) c hc
-  simpa [legalByte] using this
-
 /-- contract: the sub-minifier writes legal characters only -/
 def LegalOut (f : List Char → Option (List Char)) : Prop :=
   ∀ x m, f x = some m → x.all legalByte = true → m.all legalByte = true
